@@ -40,6 +40,10 @@ type connIDManager struct {
 	queueControlFrame         func(wire.Frame)
 
 	closed bool
+
+	// [UQUIC] the active_connection_id_limit this endpoint advertised, when it differs from
+	// protocol.MaxActiveConnectionIDs (see SetConnectionIDLimit). Zero means the default.
+	connIDLimit uint64
 }
 
 func newConnIDManager(
@@ -65,7 +69,7 @@ func (h *connIDManager) Add(f *wire.NewConnectionIDFrame) error {
 	if err := h.add(f); err != nil {
 		return err
 	}
-	if len(h.queue) >= protocol.MaxActiveConnectionIDs {
+	if uint64(len(h.queue)) >= h.connectionIDLimit() {
 		return &qerr.TransportError{ErrorCode: qerr.ConnectionIDLimitError}
 	}
 	return nil
